@@ -211,8 +211,11 @@ def run(ctx):
     nruns = 8 if thorough else 1
     depth = (MBT_STEPS + 1) * (400 if thorough else 260)
     tables, behaviours = simulate(ctx, "PreConfirmed_sim.cfg", nruns, depth, ctx.seed * 1000)
+    # every third behaviour runs on a canonical chain lifted by 7 empty blocks, so that heads 7..10
+    # (pre-confirmed blocks 8..14) cross the BlockHashLag boundary at height 10
     payload = {"tables": tables, "behaviours": behaviours,
-               "newstate": [i % 2 == 1 for i in range(len(behaviours))]}
+               "newstate": [i % 2 == 1 for i in range(len(behaviours))],
+               "offsets": [7 if i % 3 == 2 else 0 for i in range(len(behaviours))]}
     res = ctx.run_engine(binary, "TestPreconfReplay", payload, timeout=2400)
     ctx.absorb(res, ENGINE, "TestPreconfReplay")
     require_cases(res, "case ", STORAGE_CASES if thorough else STORAGE_CORE)
@@ -228,7 +231,8 @@ def run(ctx):
     pdepth = (MBT_STEPS + 1) * (300 if thorough else 120)
     ptables, pbehaviours = simulate(ctx, "PreConfirmed_psim.cfg", pruns, pdepth, ctx.seed * 1000 + 500)
     payload = {"tables": ptables, "behaviours": pbehaviours,
-               "newstate": [i % 2 == 1 for i in range(len(pbehaviours))]}
+               "newstate": [i % 2 == 1 for i in range(len(pbehaviours))],
+               "offsets": [7 if i % 3 == 2 else 0 for i in range(len(pbehaviours))]}
     res = ctx.run_engine(binary, "TestPreconfPoller", payload, timeout=2400)
     ctx.absorb(res, ENGINE, "TestPreconfPoller")
     require_cases(res, "poller case ", POLLER_CASES if thorough else POLLER_CORE)
